@@ -2,7 +2,7 @@
 // `eval_number` in an overlay copy of the unmodified crate (DESIGN 4.1).
 use super::Number;
 
-// @obligation owners=C18,C09 fn=Number::from(f64)
+// @obligation owners=C18,C09,C10,C15 fn=Number::from(f64)
 /// C18: Number::from(f64) is Integer(n) exactly when v is finite, integral and within the i64 range, and then
 /// n equals v numerically; otherwise Float(v) with v's bits unchanged.  Full domain: all 2^64 bit patterns.
 #[kani::proof]
